@@ -134,6 +134,9 @@ def run_stream(stream: bytes, cuts: tuple[int, ...], expected: int = 0, exp=None
             continue
         if f[0] not in ("ACK", "NAK"):
             return f"receiver wrote unexpected frame {f}"
+        if f[1] or f[2]:
+            # the reserved bit must be zero; a host that sets "not ready" tells the NCP to hold back its callbacks
+            return f"receiver wrote {f[0]} with the reserved / not-ready bit set (res={f[1]}, nRdy={f[2]})"
         got.append((f[0], f[3]))
     exp_w = tuple(e for e in exp if e[0] in ("ack", "ack_or_nak", "nak?"))
     if not match_writes(exp_w, tuple(got)):
